@@ -501,7 +501,7 @@ func (e *Engine) runPath(prefix []int) {
 	e.goroutines = nil
 	e.lastModel = nil
 	e.rep.Paths++
-	main := &gor{id: 0}
+	main := &gor{id: 0, resume: make(chan struct{})}
 	e.cur = main
 	e.goroutines = []*gor{main}
 
